@@ -2,7 +2,7 @@
 From Coq Require Import List ZArith Bool.
 From LJT Require Import model.Huff model.Seq model.Prog model.Script model.ArithBin gen.GenNatOrder
   proofs.NatOrderProofs proofs.SeqBits proofs.SeqProofs proofs.ProgProofs proofs.ProgRefineProofs proofs.ScriptProofs
-  proofs.ChainProofs proofs.ArithProofs proofs.ArithACProofs proofs.ArithQMProofs proofs.ArithScanProofs proofs.TotalityProofs model.T81Arith
+  proofs.ChainProofs proofs.ArithProofs proofs.ArithACProofs proofs.ArithQMProofs proofs.ArithScanProofs proofs.TotalityProofs model.CoefCtl gen.GenScanCtl proofs.CoefCtlProofs proofs.ScanCtlProofs model.T81Arith
   proofs.T81ArithProofsIdeal proofs.T81ArithProofsBytes proofs.ExampleCodec proofs.C03Examples gen.GenEntropyBytes proofs.EntropyBytesProofs gen.GenRestartClamp proofs.RestartProofs.
 Import ListNotations.
 Local Open Scope Z_scope.
@@ -368,3 +368,43 @@ Theorem C03_arith_encoders_total : forall cs Al Ss Se Ah bl ms,
   (exists ds, adcr_enc_mcus Al ms = Some ds).
 Proof. exact arith_encoders_total. Qed.
 Print Assumptions C03_arith_encoders_total.
+
+(* ---- control statements around the entropy coders (gen/GenScanCtl.v, regenerated every run) *)
+(* jcarith.c finish_pass (run at the end of every restart interval and scan): every flushed byte that can be
+   0xFF is followed by the stuffed 0x00, the D.1.8 masks are the expected ones; the models' interval bytes
+   are the QM bytes (flush included) with every 0xFF stuffed *)
+Theorem C03_source_arith_flush :
+  gen_fin_sites = [(1, true); (2, false); (3, true); (4, true); (5, true)] /\
+  forallb (fun s => (fst s =? 2) || snd s) gen_fin_sites = true /\
+  gen_fin_round_mask = 65535 * 65536 /\ gen_fin_round_add = 32768 /\ gen_fin_overflow_mask = 31 * 2 ^ 27 /\
+  gen_fin_bytes_mask = (2 ^ 16 - 1) * 2 ^ 11 /\ gen_fin_second_mask = 255 * 2 ^ 11 /\
+  gen_restart_runs_finish_pass = true /\
+  (forall ds tail, marker_start tail -> load_seg (stuff (qm_encode_all ds) ++ tail) = (qm_encode_all ds, tail)).
+Proof. exact source_arith_flush. Qed.
+Print Assumptions C03_source_arith_flush.
+
+(* a Huffman-coded block (code lengths <= 16, max_coef_bits <= 15) has at most 2048 bits = BUFSIZE/2 bytes,
+   BUFSIZE with stuffing; jdhuff.c decode_mcu demands BUFSIZE * blocks_in_MCU bytes for its unchecked fast path *)
+Theorem C03_block_fits_bufsize : forall dc ac mcb, mcb <= 15 ->
+  (forall s bs, c_enc ac s = Some bs -> (length bs <= 16)%nat) ->
+  (forall s bs, c_enc dc s = Some bs -> (length bs <= 16)%nat) ->
+  forall last_dc b bits, length b = 64%nat -> enc_block dc ac mcb last_dc b = Some bits -> Z.of_nat (length bits) <= 2048.
+Proof. exact block_fits_bufsize. Qed.
+Print Assumptions C03_block_fits_bufsize.
+
+Theorem C03_source_fast_path : gen_fast_lookahead_per_block = true /\ gen_dhuff_bufsize = 512 /\ 8 * (gen_dhuff_bufsize / 2) = 2048.
+Proof. exact source_fast_path. Qed.
+Print Assumptions C03_source_fast_path.
+
+(* jccoefct.c compress_data / compress_output, jctrans.c compress_output: however the entropy encoder suspends
+   (oracle = results of the successive encode_mcu attempts), the resumed calls hand it the MCUs of the iMCU row
+   in raster order, each exactly once -- with the per-row "coef->mcu_ctr = 0" found in the source *)
+Theorem C03_resume_emits_raster : forall rows cols fuel orc, (length orc < fuel)%nat ->
+  drive rows cols gen_ctr_reset_compress_data fuel 0 0 orc = Some (raster rows cols) /\
+  drive rows cols gen_ctr_reset_compress_output fuel 0 0 orc = Some (raster rows cols) /\
+  drive rows cols gen_ctr_reset_trans_output fuel 0 0 orc = Some (raster rows cols).
+Proof. exact resume_emits_raster. Qed.
+Print Assumptions C03_resume_emits_raster.
+
+Example C03_resume_needs_the_reset : drive 2 3 false 5 0 0 [true; false] <> Some (raster 2 3).
+Proof. exact no_reset_loses_mcus. Qed.
